@@ -53,6 +53,15 @@ func (v *VerifRouter) SetCounter(c uint32) { atomic.StoreUint32(&v.x.roundRobinN
 func (v *VerifRouter) Counter() uint32     { return atomic.LoadUint32(&v.x.roundRobinNext) }
 func (v *VerifRouter) MapSize() int        { return len(v.x.routeesMap) }
 
+// MapRoutees returns the PIDs held in the router's routee map (any order).
+func (v *VerifRouter) MapRoutees() []*PID {
+	out := make([]*PID, 0, len(v.x.routeesMap))
+	for _, r := range v.x.routeesMap {
+		out = append(out, r)
+	}
+	return out
+}
+
 // Ring exposes the router's hash ring (nil unless ConsistentHashRouting).
 func (v *VerifRouter) Ring() *VerifRing {
 	if v.x.ring == nil {
